@@ -186,14 +186,18 @@ def run_path(prog, lib, h, prefix, timeout_ms, dump_smt=None):
                         verdict = 'unknown'
             else:
                 neg = z3.Not(zbool(phi))
+                dumped = None
                 if dump_smt is not None and len(dump_smt) < 40:
                     s2 = z3.Solver()
                     for c in ex.pc:
                         s2.add(c)
                     s2.add(neg)
-                    dump_smt.append((h.name, label, s2.to_smt2()))
+                    dumped = [h.name, label, s2.to_smt2(), None]
+                    dump_smt.append(dumped)
                 rr = ex.check(neg)
                 verdict = 'sat' if rr == z3.sat else ('unsat' if rr == z3.unsat else 'unknown')
+                if dumped is not None:
+                    dumped[3] = verdict
                 model = None
                 if rr == z3.sat:
                     ex.solver.push()
